@@ -132,6 +132,18 @@ CHECKS = {
         "runs) is excluded by signature.",
         "DESIGN.md 5/C19",
     ),
+    "C14": (
+        "exploration",
+        "exhaustive enumeration of argument-shape lists (length <= 3 over 15 "
+        "shapes) + Hypothesis lists to length 6; three-way differential "
+        "against the statement's rules",
+        "Every argument list up to length 3 over the shape alphabet is run "
+        "through the parser view, the template_fn view and the Lua frame view; "
+        "each must equal the map given by the statement's rules (key types "
+        "and values). Lists with colliding keys are outside the precondition.",
+        "Trusts the echo module's dump and the Lua stand-in library.",
+        "DESIGN.md 5/C14",
+    ),
 }
 
 NOT_YET = "check not built yet in this round (planned in DESIGN.md section 5)"
